@@ -805,6 +805,20 @@ Proof.
   - apply inv_curvature_spec; assumption.
 Qed.
 
+(* ------------------------------------------------------------------ reconstructed visibilities per linear object; simulator *)
+Lemma T_recon_dict pi_ (G : @geom ROps) uv preload (objs : list (nat * list (list R) * bool)) (s : list R) :
+  rectn (Wn (g_mask G)) (g_mask G) = true -> @scales_ok ROps (g_sy G) (g_sx G) = true ->
+  @inv_recon_dict ROps pi_ G uv preload objs s = @recon_dict_spec ROps (@centres_spec ROps pi_ G) uv objs s.
+Proof.
+  intros HG HS. unfold inv_recon_dict, recon_dict_spec. apply map_ext. intros os.
+  rewrite (tr_mapping_matrix_spec pi_ G HG HS). apply recon_is_matvec.
+Qed.
+Lemma T_sim pi_ (G : @geom ROps) uv (img : list R) :
+  rectn (Wn (g_mask G)) (g_mask G) = true -> @scales_ok ROps (g_sy G) (g_sx G) = true ->
+  @sim_data ROps pi_ G uv img = @dft_spec ROps img (@centres_spec ROps pi_ G) uv.
+Proof. intros HG HS. unfold sim_data. apply (tr_visibilities_spec pi_ G HG HS). Qed.
+
+
 (* ---------------- histories: the outcome of every step is the pure function of the current contents ---------------- *)
 Lemma t_vis_new pi_ (G : @geom ROps) uv p img : @t_vis ROps (t_new pi_ G uv p) img = @tr_visibilities ROps pi_ G uv p img.
 Proof. unfold t_vis, t_new, tr_visibilities. destruct p; reflexivity. Qed.
